@@ -16,6 +16,7 @@ pub fn current() -> Thread {
 /// from loom's token semantics.
 pub fn park() {
     event(Ev::Park);
+    crate::ctl::check_not_holding("park()");
     let spurious = with(|e| {
         let n = e.parks;
         e.parks += 1;
